@@ -323,9 +323,9 @@ def check_anam(ctx, py, im, mo, site):
     # --- properties on impl (fitted anamorphosis with bounds: the validity interval is [az.min, az.max])
     if py['mode'] == 0 and py['flagBound']:
         pyv = [undy(pyi[0]), undy(pyi[1])]
-        if None in azv or None in ayv or None in pzv or None in pyv or not (azv[0] < azv[1] and ayv[0] < ayv[1] and azv[0] <= pzv[0] <= pzv[1] <= azv[1] and ayv[0] <= pyv[0] <= pyv[1] <= ayv[1]):
+        if None in azv or None in ayv or None in pzv or None in pyv or not (azv[0] < azv[1] and ayv[0] < ayv[1] and pzv[0] < pzv[1] and pyv[0] < pyv[1] and pzv[0] < azv[1] and azv[0] < pzv[1]):
             site.spec.append(('AnamHermite:bounds-inverted', 'the fitted anamorphosis reports absolute raw bounds [%s, %s] / Gaussian [%s, %s] and practical raw bounds [%s, %s] / Gaussian [%s, %s]: '
-                              'not nested increasing intervals (every raw value is then sent to a bound; data range [%.6g, %.6g])'
+                              'an interval is empty / inverted (every raw value is then sent to a bound; data range [%.6g, %.6g])'
                               % (fl(azv[0]), fl(azv[1]), fl(ayv[0]), fl(ayv[1]), fl(pzv[0]), fl(pzv[1]), fl(pyv[0]), fl(pyv[1]), min(actv), max(actv))))
             return
         # Db level: raw -> Gaussian -> raw returns the starting values inside the validity interval, to the accuracy of the stopping rule
